@@ -404,7 +404,16 @@ func describeObs(fs []FileObs) string {
 func Check(scen string, in In) ([]*mc.Violation, []Obs) {
 	var obs []Obs
 	if in.Orders {
-		ForEachMapOrder(func() { obs = append(obs, Observe(in.Deb, nil)) })
+		// stop executing further orders once two different outcome classes have been seen (already a counterexample)
+		seen := map[string]bool{}
+		ForEachMapOrder(func() {
+			if len(seen) > 1 {
+				return
+			}
+			o := Observe(in.Deb, nil)
+			obs = append(obs, o)
+			seen[o.Class()] = true
+		})
 	} else {
 		obs = append(obs, Observe(in.Deb, nil), Observe(in.Deb, nil))
 	}
